@@ -130,6 +130,10 @@ def run(chk, repo, tier):
                 tgts, val = [n.target], n.value
             for t in tgts:
                 for tt in (t.elts if isinstance(t, ast.Tuple) else [t]):
+                    # obj.field[key] = value writes into the container held by the field: same discipline
+                    if isinstance(tt, ast.Subscript) and isinstance(tt.value, ast.Attribute) \
+                            and isinstance(tt.value.value, ast.Name):
+                        tt = tt.value
                     if not (isinstance(tt, ast.Attribute) and isinstance(tt.value, ast.Name)):
                         continue
                     who, attr = tt.value.id, tt.attr
@@ -205,6 +209,47 @@ def run(chk, repo, tier):
                               line=c.methods[meth].node.lineno,
                               witness='copy.copy(obj) no longer returns an equal (the same) object')
 
+    # ---- M6 validated collections are not built through the raw constructor when new names enter
+    M6 = chk.rule('M6', 'modeling functions that add a newly named Parameter build the collection through Parameters.create '
+                        '(the raw constructor skips the unique-name validation)', floor=10)
+    n6 = 0
+    for f in repo.all_funcs():
+        if not f.module.name.startswith('pharmpy.modeling'):
+            continue
+        raw = [c for c in calls_in(f.node) if isinstance(c.func, ast.Name) and c.func.id == 'Parameters' and c.args]
+        for c in raw:
+            n6 += 1
+            arg = c.args[0]
+            base = arg.args[0] if isinstance(arg, ast.Call) and unparse(arg.func) in ('tuple', 'list') and arg.args else arg
+            news = []
+            if isinstance(base, ast.Name):
+                L = base.id
+                for n in walk_no_nested(f.node):
+                    val = None
+                    if isinstance(n, ast.Expr) and isinstance(n.value, ast.Call) and isinstance(n.value.func, ast.Attribute) \
+                            and n.value.func.attr in ('append', 'insert') and unparse(n.value.func.value) == L and n.value.args:
+                        val = n.value.args[-1]
+                    if isinstance(n, ast.AugAssign) and unparse(n.target) == L:
+                        val = n.value
+                    if val is None:
+                        continue
+                    for pc in ast.walk(val):
+                        if isinstance(pc, ast.Call) and unparse(pc.func) in ('Parameter', 'Parameter.create'):
+                            name_arg = pc.args[0] if pc.args else next((k.value for k in pc.keywords if k.arg == 'name'), None)
+                            if name_arg is None or isinstance(name_arg, ast.Constant):
+                                continue
+                            if isinstance(name_arg, ast.Attribute) and name_arg.attr == 'name':
+                                continue      # the name of an existing parameter
+                            news.append(unparse(pc)[:60])
+            chk.instance(M6, f'{f.qualname}: Parameters({unparse(arg)[:40]}) raw constructor; newly named members: {news}')
+            for nw in news:
+                chk.violation(M6, f.module.rel, f.qualname, f'Parameters({unparse(arg)[:50]}) with {nw}',
+                              'a parameter with a computed name is added and the collection is built without the unique-name '
+                              'check of Parameters.create', line=c.lineno,
+                              witness="add_iiv twice on the same parameter with custom eta_names: the model has two parameters "
+                                      "named IIV_<param> and the code two $OMEGA records with that name")
+    if n6 < 5:
+        raise AnalysisError(f'M6: only {n6} raw Parameters(...) constructions found in pharmpy.modeling')
     # ---- M3
     for c in repo.all_classes():
         e, h = c.methods.get('__eq__'), c.methods.get('__hash__')
